@@ -112,6 +112,13 @@ def load_soupsieve(cache_bound: int | None = None, sim_locks: bool = True):
     if not f.startswith(repo_pkg_dir()):
         raise RuntimeError(f'soupsieve imported from {f}, expected under {REPO}')
 
+    # Beautiful Soup keeps a reference to the soupsieve module it saw first; point it at the instance under test so
+    # that calls made through Tag.select / Tag.css reach the same code and the same caches
+    try:
+        import bs4.css as _bcss
+        _bcss.soupsieve = sv
+    except Exception:  # pragma: no cover
+        pass
     # A hand-written cache in a changed tree would most likely consult this constant.
     cp = sys.modules.get('soupsieve.css_parser')
     if cache_bound is not None and cp is not None:
